@@ -139,6 +139,52 @@ def run_translator(ctx):
     return table
 
 
+KEY_BARRIER = "barrier-lock-lock-declared-independent"
+
+
+def run_barrier_witness(ctx):
+    """Replay of the model-level counterexample `barrier_lock_lock_counterexample` on the real implementation:
+    witness_barrier.cpp; (a) the recorded path in which P3 locks among the first two makes the program's MC_assert fail,
+    the path in which P2 does passes: two orders of declared-independent BARRIER_ASYNC_LOCKs, different outcomes;
+    (b) consequence: the reductions that trust the relation (odpor, sdpor) finish with exit 0 on that program."""
+    import subprocess
+    from vlib import core
+    w = ctx.build_harness("witness_barrier.cpp", flags=("-w",))
+    if not w:
+        return
+    env = dict(os.environ, **ctx.sg_env())
+
+    def replay(path):
+        p = subprocess.run([w, "--cfg=model-check/replay:" + path], capture_output=True, text=True, timeout=60, env=env, cwd=ctx.work)
+        return "assert-fails" if "MC assertion failed" in (p.stdout + p.stderr) else "rc=%d" % p.returncode
+    a = replay("1;3;1;2;3;3;1;4;3;4")
+    b = replay("1;2;1;3;2;2;1;4;2;4")
+    res = {"replay LOCK1;LOCK3 first": a, "replay LOCK1;LOCK2 first": b}
+    reds = ["odpor"] if ctx.tier == "quick" else ["odpor", "sdpor"]
+    mc = os.path.join(core.SGBUILD, "bin", "simgrid-mc")
+    missed = []
+    for r in reds:
+        try:
+            p = subprocess.run([mc, "--cfg=model-check/reduction:" + r, "--log=root.thres:critical", w], capture_output=True,
+                               text=True, timeout=240, env=env, cwd=ctx.work)
+            rc = p.returncode
+        except subprocess.TimeoutExpired:
+            rc = "timeout"
+        res["simgrid-mc reduction:" + r] = rc
+        if rc == 0:
+            missed.append(r)
+        ctx.cov["evaluations"] += 1
+    ctx.cov["barrier_witness"] = res
+    ctx.cov["evaluations"] += 2
+    if a == "assert-fails" and b != "assert-fails":
+        # the two orders of a declared-independent, co-enabled pair differ on the real implementation
+        ctx.violation("BARRIER_ASYNC_LOCK x BARRIER_ASYNC_LOCK on one barrier is declared independent, but on a barrier that is "
+                      "one short of full the two orders lead to different states (replays differ: %s vs %s)%s" % (
+                          a, b, "; reductions %s finish with exit 0 on the program although the failing execution exists" % missed if missed else ""),
+                      {"program": "props/C39/witness_barrier.cpp", "replay_failing": "1;3;1;2;3;3;1;4;3;4",
+                       "replay_passing": "1;2;1;3;2;2;1;4;2;4", "results": res}, key=KEY_BARRIER)
+
+
 def run(ctx):
     ctx.cov["rule"] = ("pairs of synthetic transitions drawn from splitmix64(VERIF_SEED): 60% inside one dependency group "
                        "(mutex / sem / barrier / comm incl. TESTANY,WAITANY / condvar+mutex / actor), 40% any two kinds, "
@@ -150,7 +196,7 @@ def run(ctx):
         "implementation through `depends` (this check) and through the Sync-family semantics only",
         "members of TESTANY/WAITANY are COMM_TEST/COMM_WAIT (what the application sends); nested ANY not modelled",
         "kinds hand-listed in the Python generator's SCHEMA are cross-checked by the harness (unread bytes = bad query)"]
-    ctx.ensure_simgrid(["simgrid"])
+    ctx.ensure_simgrid(["simgrid", "simgrid-mc"])
     table = run_translator(ctx)
     ctx.lean_prove()
     drv = ctx.lean_exe()
@@ -161,6 +207,9 @@ def run(ctx):
     if ctx.broken:
         n *= 10 if ctx.tier == "quick" else 3
     corpus = [l.strip() for l in open(ctx.pdir + "/corpus.txt") if l.strip() and not l.startswith("#")]
+    if ctx.replay and "program" in json.load(open(ctx.replay))["case"]:
+        run_barrier_witness(ctx)
+        return
     if ctx.replay:
         queries = [(json.load(open(ctx.replay))["case"]["query"], (None, None, False))]
     else:
@@ -209,6 +258,8 @@ def run(ctx):
             # (incl. indep_commute) no longer speak about this code.  Broken correspondence.
             if len([b for b in ctx.broken if b.get("kind") == "depends-differs"]) < 5:
                 ctx.broken.append({"kind": "depends-differs", "query": q, "impl": l, "verdict": v[:300]})
+    if not ctx.replay:
+        run_barrier_witness(ctx)
     ctx.cov["samples"] = out[:2] + out[len(corpus):len(corpus) + 4]
     if table:
         n_t = len(table["types"])
